@@ -97,6 +97,47 @@ BUILTIN_NAMES = {
 }
 
 
+_SIG_CACHE = {}
+
+
+def _leading_positional(dotted, args, kwargs, model_fn=None):
+    """f(a=x, axis=0) and f(x, 0) are the same call: arguments given by keyword are moved to their positional slots as far as they form a gap-free
+    prefix of the REAL library function's signature (models name their parameters freely; only the order is the library's)"""
+    if dotted not in _SIG_CACHE:
+        params = None
+        try:
+            import importlib
+            import inspect
+
+            mod, _, name = dotted.rpartition(".")
+            obj = getattr(importlib.import_module(mod), name)
+            params = [p.name for p in inspect.signature(obj).parameters.values() if p.kind in (p.POSITIONAL_ONLY, p.POSITIONAL_OR_KEYWORD)]
+        except Exception:
+            params = None
+        _SIG_CACHE[dotted] = params
+    params = _SIG_CACHE[dotted]
+    if not params:
+        return args, kwargs
+    room, own_names, takes_kw = len(params), set(), False
+    if model_fn is not None:  # ... only as far as the model takes positional arguments at all, and never a keyword the model itself knows by name
+        try:
+            import inspect
+
+            mp = list(inspect.signature(model_fn).parameters.values())[1:]
+            if not any(p.kind == p.VAR_POSITIONAL for p in mp):
+                room = sum(1 for p in mp if p.kind in (p.POSITIONAL_ONLY, p.POSITIONAL_OR_KEYWORD))
+            own_names = {p.name for p in mp if p.kind in (p.POSITIONAL_OR_KEYWORD, p.KEYWORD_ONLY)}
+            takes_kw = any(p.kind == p.VAR_KEYWORD for p in mp)
+        except (TypeError, ValueError):
+            pass
+    if takes_kw or any(k in own_names for k in kwargs):
+        return args, kwargs  # the model binds these keywords itself (its parameter order need not be the library's)
+    args, kwargs = list(args), dict(kwargs)
+    while len(args) < min(len(params), room) and params[len(args)] in kwargs:
+        args.append(kwargs.pop(params[len(args)]))
+    return args, kwargs
+
+
 class Interp:
     def __init__(self, ctx, models=None):
         self.ctx = ctx
@@ -124,11 +165,17 @@ class Interp:
     # ------------------------------------------------------------------ uninterpreted
     def uf(self, name, *args, sort=U):
         zs = [self.to_z3_any(a) for a in args]
+        commutes = len(zs) == 2 and (name.endswith("_Add") or name.endswith("_Mult")) and zs[0].sort() == zs[1].sort()
         key = (name, tuple(z.sort().name() for z in zs), sort.name())
         f = self.uf_cache.get(key)
         if f is None:
             f = z3.Function(name + "".join("_" + z.sort().name()[0] for z in zs), *[z.sort() for z in zs], sort)
             self.uf_cache[key] = f
+        if commutes:
+            # `+` and elementwise `*` commute bit for bit (IEEE): every such term comes with the ground instance f(a, b) = f(b, a) (`@` is not touched)
+            t = f(*zs)
+            self.ctx.assume(t == f(zs[1], zs[0]))
+            return t
         return f(*zs) if zs else z3.Const(name, sort)
 
     def to_z3_any(self, v):
@@ -248,6 +295,10 @@ class Interp:
             dn = d.func if isinstance(d, ast.Call) else d
             nm = dn.id if isinstance(dn, ast.Name) else (dn.attr if isinstance(dn, ast.Attribute) else None)
             if nm in ("usedocs", "deprecated", "wraps", "jit", "partial", "abstractmethod", "staticmethod"):
+                continue
+            if nm in ("lru_cache", "cache"):
+                # functools memoisation: a second call with equal arguments hands back THE SAME OBJECT (positional and keyword spellings are different keys)
+                clo.memo = {}
                 continue
             raise Unsupported(f"decorator {nm} on {clo.key}")
         return clo
@@ -480,7 +531,7 @@ class Interp:
             if is_z3(v) and z3.is_bool(v):
                 return z3.Not(v)
             if isinstance(v, bool):
-                return not v
+                return ~int(v)  # Python: ~True == -2, ~False == -1 (both truthy) - bitwise, NOT logical negation
             if isinstance(v, int):
                 return ~v
             return self.lib_unop("invert", v)
@@ -1305,6 +1356,8 @@ class Interp:
             if h is None:
                 raise Unsupported(f"no model for {fn.dotted}")
             self.used_models.add(fn.dotted)
+            if kwargs:
+                args, kwargs = _leading_positional(fn.dotted, args, kwargs, h)
             return h(self, *args, **kwargs)
         if isinstance(fn, Obj) and isinstance(fn.cls, RepoClass):
             _, m = fn.cls.find(self, "__call__")
@@ -1354,6 +1407,17 @@ class Interp:
         return env
 
     def call_closure(self, clo, args, kwargs):
+        memo = getattr(clo, "memo", None)
+        if memo is not None and not getattr(clo, "_in_memo_call", False):
+            mk = (tuple(repr(a) for a in args), tuple(sorted((k, repr(v)) for k, v in kwargs.items())))
+            if mk in memo:
+                return memo[mk]
+            clo._in_memo_call = True
+            try:
+                memo[mk] = self.call_closure(clo, args, kwargs)
+            finally:
+                clo._in_memo_call = False
+            return memo[mk]
         if clo.key in self.summaries and not getattr(self, "_bypass_summary", None) == clo.key:
             self.used_summaries.add(clo.key)
             return self.summaries[clo.key](self, args, kwargs)
@@ -1591,6 +1655,27 @@ class Interp:
         if self.branch_on(self.eval(st.test, env, module)):
             return self.exec_block(st.body, env, module)
         return self.exec_block(st.orelse, env, module)
+
+    def s_Match(self, st, env, module):
+        """match/case with class patterns without sub-patterns (`case Cls():`), value patterns, and the wildcard - first matching case wins"""
+        subj = self.eval(st.subject, env, module)
+        for case in st.cases:
+            pat = case.pattern
+            if isinstance(pat, ast.MatchAs) and pat.pattern is None:
+                if pat.name is not None:
+                    env.vars[pat.name] = subj
+                hit = True
+            elif isinstance(pat, ast.MatchClass) and not pat.patterns and not pat.kwd_patterns:
+                cls = self.eval(pat.cls, env, module)
+                hit = self.models["builtins.isinstance"](self, subj, cls)
+            elif isinstance(pat, ast.MatchValue):
+                r = self.compare("Eq", subj, self.eval(pat.value, env, module))
+                hit = self.branch_on(r)
+            else:
+                raise Unsupported(f"match pattern {type(pat).__name__}")
+            if hit and (case.guard is None or self.branch_on(self.eval(case.guard, env, module))):
+                return self.exec_block(case.body, env, module)
+        return None
 
     def s_Assert(self, st, env, module):
         if not self.branch_on(self.eval(st.test, env, module)):
